@@ -436,6 +436,10 @@ impl fmt::Debug for ThreadPool {
 /// [snt]: ThreadPoolBuilder::num_threads()
 #[inline]
 pub fn current_thread_index() -> Option<usize> {
+    // [vpsim seam] a simulated executor, when installed, reports the simulated worker
+    if let Some(ex) = crate::sim::current() {
+        return ex.thread_index();
+    }
     unsafe {
         let curr = WorkerThread::current().as_ref()?;
         Some(curr.index())
